@@ -26,6 +26,8 @@ pub enum EnvEv {
     IoError,
     /// async only: `Poll::Pending`
     Pending,
+    /// a `fill_buf` call that returned the piece ending at absolute offset `hi`
+    Fb { hi: usize },
 }
 
 /// What happens at the `idx`-th refill call (0-based; a refill call is a
@@ -141,6 +143,7 @@ impl BufRead for Chunked {
         if self.pos == self.end {
             self.refill(false)?;
         }
+        self.log.borrow_mut().push(EnvEv::Fb { hi: self.end });
         Ok(&self.data[self.pos..self.end])
     }
     fn consume(&mut self, amt: usize) {
@@ -187,6 +190,7 @@ impl tokio::io::AsyncBufRead for Chunked {
                 Err(e) => return Poll::Ready(Err(e)),
             }
         }
+        this.log.borrow_mut().push(EnvEv::Fb { hi: this.end });
         Poll::Ready(Ok(&this.data[this.pos..this.end]))
     }
     fn consume(self: Pin<&mut Self>, amt: usize) {
